@@ -21,6 +21,11 @@ type c01fileCase struct {
 	Dims  []uint64 `json:"dims"`
 	Data  string   `json:"data"` // hex, little-endian element bytes
 	Dir   string   `json:"dir"`
+	// optional extensions (tools/props/c01file.py kinds "chunked", "v0", "attr")
+	Chunk []uint64 `json:"chunk,omitempty"` // WithChunkDims
+	AName string   `json:"aname,omitempty"` // hex; one WriteAttribute after Write when AKind is set
+	AKind string   `json:"akind,omitempty"` // attrValue kind (hist.go)
+	AVal  string   `json:"aval,omitempty"`  // hex, little-endian value bytes
 }
 
 type c01fileResult struct {
@@ -62,7 +67,11 @@ func init() {
 		if err != nil {
 			return c01fileResult{Stage: "create", Err: err.Error()}, nil
 		}
-		ds, err := fw.CreateDataset("/"+string(nameb), dt, c.Dims)
+		var opts []hdf5.DatasetOption
+		if len(c.Chunk) > 0 {
+			opts = append(opts, hdf5.WithChunkDims(c.Chunk))
+		}
+		ds, err := fw.CreateDataset("/"+string(nameb), dt, c.Dims, opts...)
 		if err != nil {
 			_ = fw.Close()
 			return c01fileResult{Stage: "dataset", Err: err.Error()}, nil
@@ -75,6 +84,23 @@ func init() {
 		if err := ds.Write(v); err != nil {
 			_ = fw.Close()
 			return c01fileResult{Stage: "write", Err: err.Error()}, nil
+		}
+		if c.AKind != "" {
+			anameb, e1 := hex.DecodeString(c.AName)
+			araw, e2 := hex.DecodeString(c.AVal)
+			if e1 != nil || e2 != nil {
+				_ = fw.Close()
+				return nil, fmt.Errorf("bad hex attribute")
+			}
+			av, err := attrValue(c.AKind, araw)
+			if err != nil {
+				_ = fw.Close()
+				return nil, err
+			}
+			if err := ds.WriteAttribute(string(anameb), av); err != nil {
+				_ = fw.Close()
+				return c01fileResult{Stage: "attr", Err: err.Error()}, nil
+			}
 		}
 		if err := fw.Close(); err != nil {
 			return c01fileResult{Stage: "close", Err: err.Error()}, nil
